@@ -20,6 +20,7 @@
    node of the container is after a call that returns is obtained by inversion of the monadic code. *)
 From CB Require Import Word Word_proofs PMem PMem_proofs PItem PItem_proofs HHeap HItems HOps HHist.
 From CB Require Import HRef_proofs HCont_proofs HRead_proofs HLoad_proofs HCopy_proofs HHist_proofs.
+From CB Require Import HHist2 HHist3 HHist2_proofs HHist3_proofs HStepInv_proofs HTrace_proofs HFrame_proofs.
 From Coq Require Import Lia ZArith ZifyBool ZifyN ZifyNat List.
 Import ListNotations.
 Local Open Scope N_scope.
@@ -1387,8 +1388,265 @@ Example exC_outs :
   end.
 Proof. vm_compute. repeat split. Qed.
 
+
+(* ------------------------------------------------------------------------------------------ *)
+(* 9. arrays over histories of the third layer (HHist3.step3): the calls of section 3, the       *)
+(*    constructors of the third layer, and the idiom cbor_array_push(a, cbor_move(x))            *)
+(* ------------------------------------------------------------------------------------------ *)
+
+Definition arr_lang3 (h : nat) (o : op3) : Prop :=
+  match o with
+  | O3Old o => arr_lang h o
+  | O3PushMove a _ => a = h
+  | O3NewDefString _ | O3NewInt _ | O3NewFloat _ | O3NewCtrl | O3BuildBool _ | O3NewNull | O3NewUndef
+  | O3BuildString0 _ => True
+  | _ => False
+  end.
+
+Definition out_agrees3 (ao : aout) (s' : cstate3) (r : out3) : Prop :=
+  exists o, r = Out o /\ out_agrees ao (base s') o.
+
+Section ArraySequence3.
+Variable refuse : N -> N -> bool.
+Variable L : N.
+Variable h : nat.
+Variable p : addr.
+
+Definition astep3 (s : cstate3) (w : world) (o : op3) (l : alist) : aout * alist :=
+  match o with
+  | O3Old o => astep refuse (base s) w o l
+  | O3PushMove _ x =>
+      let g := granted refuse SZ_PTR w (a_cap l) in
+      match hget (base s) x with
+      | Some q => (AOBool (fst (apush g l q)), snd (apush g l q))
+      | None => (AOSkip, l)
+      end
+  | _ => (AONew, l)
+  end.
+
+Fixpoint seq_ok3 (ops : list op3) (s : cstate3) (w : world) (l : alist) : Prop :=
+  match ops with
+  | [] => True
+  | o :: r =>
+      exists s' out w',
+        step3 refuse L s o w = Ret (s', out) w' /\
+        out_agrees3 (fst (astep3 s w o l)) s' out /\
+        arr_at w' p (snd (astep3 s w o l)) /\
+        seq_ok3 r s' w' (snd (astep3 s w o l))
+  end.
+
+Lemma lift3_inv' s (m : M (cstate * out)) w s' r w' : lift3 s m w = Ret (s', r) w' ->
+  exists sb rb, m w = Ret (sb, rb) w' /\ s' = mkcs3 sb (unset s) /\ r = Out rb.
+Proof.
+  unfold lift3. intros H. apply bind_inv in H. destruct H as ([sb rb] & w1 & E & H).
+  apply ret_inv in H. destruct H as [H ->]. injection H as -> ->. eauto.
+Qed.
+
+(* the constructors of the third layer append a handle and report whether it is NULL *)
+Lemma ctor3_out s o w s' r w' :
+  match o with
+  | O3NewDefString _ | O3NewInt _ | O3NewFloat _ | O3NewCtrl | O3BuildBool _ | O3NewNull | O3NewUndef
+  | O3BuildString0 _ => True
+  | _ => False
+  end ->
+  step3 refuse L s o w = Ret (s', r) w' ->
+  exists x, base s' = hpush (base s) x /\ r = Out (OutHandle (match x with Some _ => true | None => false end)).
+Proof.
+  intros Ho E.
+  assert (Newh : forall m, lift3 s (newh (base s) m) w = Ret (s', r) w' ->
+            exists x, base s' = hpush (base s) x /\ r = Out (OutHandle (match x with Some _ => true | None => false end))).
+  { intros m H. apply lift3_inv' in H. destruct H as (sb & rb & H & -> & ->). apply newh_inv in H.
+    destruct H as (x & _ & -> & ->). exists x. auto. }
+  destruct o; try contradiction; cbn [step3] in E.
+  - apply (Newh _ E).
+  - unfold new_int in E. apply bind_inv in E. destruct E as (x & w1 & _ & E). apply ret_inv in E. destruct E as [E _].
+    injection E as -> ->. exists x. auto.
+  - unfold new_float in E. apply bind_inv in E. destruct E as (x & w1 & _ & E). apply ret_inv in E. destruct E as [E _].
+    injection E as -> ->. exists x. auto.
+  - apply (Newh _ E).
+  - apply (Newh _ E).
+  - apply (Newh _ E).
+  - apply (Newh _ E).
+  - apply (Newh _ E).
+Qed.
+
+Lemma arr_step3 s own w o l s' out w' :
+  wf w -> caps w -> hget (base s) h = Some p -> arr_at w p l -> arr_lang3 h o -> legal3 s own w o ->
+  step3 refuse L s o w = Ret (s', out) w' ->
+  out_agrees3 (fst (astep3 s w o l)) s' out /\ arr_at w' p (snd (astep3 s w o l)) /\ hget (base s') h = Some p.
+Proof.
+  intros Hwf Hc Hh A Lo Lg H.
+  assert (Ctor : match o with
+                 | O3NewDefString _ | O3NewInt _ | O3NewFloat _ | O3NewCtrl | O3BuildBool _ | O3NewNull | O3NewUndef
+                 | O3BuildString0 _ => True
+                 | _ => False
+                 end ->
+                 out_agrees3 (fst (astep3 s w o l)) s' out /\ arr_at w' p (snd (astep3 s w o l)) /\ hget (base s') h = Some p).
+  { intros Ho. destruct (ctor3_out s o w s' out w' Ho H) as (x & Hb & ->).
+    assert (astep3 s w o l = (AONew, l)) as -> by (destruct o; try contradiction; reflexivity).
+    cbn [fst snd]. split; [|split].
+    - exists (OutHandle (match x with Some _ => true | None => false end)). split; [reflexivity|].
+      cbn [out_agrees]. rewrite Hb, new_handle_hpush. reflexivity.
+    - destruct A as (rc & d & E & B). exists rc, d. split; [|exact B].
+      destruct (C17_step3_frame refuse L s o w s' _ w' Hwf H) as [_ Fr]. rewrite Fr; [exact E| |].
+      + destruct (N.lt_ge_cases p (next w)) as [Lt|Ge]; [exact Lt|]. rewrite (Hwf p Ge) in E. discriminate E.
+      + intros (h0 & a0 & Hin & _). destruct o; try contradiction; destruct Hin.
+    - rewrite Hb. apply hget_hpush. exact Hh. }
+  destruct o as [o|text|h0 bytes|h0 n|iw|iw h0 v|neg h0|fw|fw h0 bits| |h0 v|h0 b|b| | |h0|a x|m k v|t x|v x|h0|bytes|k h0 n|h0|h0];
+    cbn [arr_lang3] in Lo; try contradiction; try (apply Ctor; exact I).
+  - (* a call of the first layer *)
+    cbn [step3 astep3] in *. unfold old3 in H. destruct (forallb (is_set s) (op_reads o)); [|discriminate H].
+    apply lift3_inv' in H. destruct H as (sb & rb & H & -> & ->).
+    destruct (arr_step refuse L h p (base s) w o l sb rb w' Hwf Hc Hh A Lo H) as (Ho & A' & Hh').
+    split; [exists rb; auto|]. split; [exact A'|exact Hh'].
+  - (* cbor_array_push(a, cbor_move(x)) *)
+    subst a. cbn [step3 astep3 legal3] in *. unfold push_move in H. rewrite Hh in H.
+    destruct (hget (base s) x) as [q|] eqn:Hx.
+    + destruct (Lg p q Hh eq_refl) as (_ & _ & _ & Hpq & _).
+      destruct (is_set s x); [|discriminate H].
+      apply bind_inv in H. destruct H as (u & w1 & E1 & H). apply bind_inv in H. destruct H as (b & w2 & E2 & H).
+      apply ret_inv in H. destruct H as [H ->]. injection H as -> ->.
+      (* the move changes the count of q only *)
+      unfold move in E1. apply bind_inv in E1. destruct E1 as (c & wa & Ea & E1).
+      apply bind_inv in E1. destruct E1 as (u1 & wb & Eb & E1). apply ret_inv in E1. destruct E1 as [_ ->].
+      apply rd_inv in Ea. destruct Ea as (Eq & Ha & Na & Ra). apply wr_inv in Eb. destruct Eb as (Eq' & Eo & Nb & Rb).
+      assert (A1 : arr_at wb p l).
+      { destruct A as (rc & d & E & B). exists rc, d. split; [|exact B]. rewrite (Eo p Hpq), Ha. exact E. }
+      assert (W1 : wf wb).
+      { intros z Hz. rewrite Nb, Na in Hz. destruct (N.eq_dec z q) as [->|Nz].
+        - rewrite (Hwf q Hz) in Eq. discriminate Eq.
+        - rewrite (Eo z Nz), Ha. apply Hwf. exact Hz. }
+      assert (C1 : caps wb).
+      { intros z rc n Ez. destruct (N.eq_dec z q) as [->|Nz].
+        - rewrite Eq' in Ez. injection Ez as _ <-. eapply Hc. exact Eq.
+        - rewrite (Eo z Nz), Ha in Ez. eapply Hc. exact Ez. }
+      destruct (push_inv refuse p q wb l b w2 W1 C1 A1 E2) as (-> & A').
+      rewrite (granted_nreq refuse SZ_PTR w wb (a_cap l)) in * by congruence.
+      split; [eexists; split; [reflexivity|reflexivity]|]. split; [exact A'|exact Hh].
+    + apply ret_inv in H. destruct H as [H ->]. injection H as -> ->. cbn [fst snd].
+      split; [exists OutSkip; split; reflexivity|]. split; [exact A|exact Hh].
+Qed.
+
+(* the client keeps its reference to the array *)
+Lemma arr_lang3_own s w o own s' :
+  hget (base s) h = Some p -> arr_lang3 h o -> legal3 s own w o -> own p <= own_after3 s o own s' p.
+Proof.
+  intros Hh Lo Lg.
+  destruct o as [o|text|h0 bytes|h0 n|iw|iw h0 v|neg h0|fw|fw h0 bits| |h0 v|h0 b|b| | |h0|a x|m k v|t x|v x|h0|bytes|k h0 n|h0|h0];
+    cbn [arr_lang3] in Lo; try contradiction; cbn [own_after3];
+    try (destruct (new_handle3 s'); unfold own1; lia).
+  - eapply arr_lang_own; [exact refuse|exact Lo].
+  - subst a. rewrite Hh. destruct (hget (base s) x) as [q|] eqn:Hx; [|lia].
+    cbn [legal3] in Lg. destruct (Lg p q Hh Hx) as (_ & _ & _ & Hpq & _).
+    unfold own_dec. destruct (N.eqb_spec p q); [congruence|lia].
+Qed.
+
+(* C12 over histories of the third layer *)
+Theorem C12_array_sequence3 : forall ops s own ownd w l,
+  Inv own ownd [] w -> caps w -> hget (base s) h = Some p -> 0 < own p -> arr_at w p l ->
+  Forall (arr_lang3 h) ops -> legal_history3 refuse L ops s own w -> seq_ok3 ops s w l.
+Proof.
+  induction ops as [|o r IH]; intros s own ownd w l I0 Hc Hh Op A F LH; [exact I|].
+  cbn [seq_ok3]. cbn [legal_history3] in LH. destruct LH as (Lo & LH).
+  inversion F as [|o' r' Fo Fr]; subst o' r'.
+  pose proof (Inv_wf _ _ _ _ I0) as Hwf.
+  destruct (C04_step3 refuse L s own ownd w o I0 Hwf Hc Lo) as (s' & out & w' & E & I' & Hwf' & Hc').
+  destruct (arr_step3 s own w o l s' out w' Hwf Hc Hh A Fo Lo E) as (Ho & A' & Hh').
+  exists s', out, w'. split; [exact E|]. split; [exact Ho|]. split; [exact A'|].
+  eapply IH; [exact I'|exact Hc'|exact Hh'| |exact A'|exact Fr|exact (LH _ _ _ E)].
+  pose proof (arr_lang3_own s w o own s' Hh Fo Lo). lia.
+Qed.
+
+End ArraySequence3.
+
+(* non-vacuity: a definite array of capacity 2; the client makes an integer with cbor_new_int8 /
+   cbor_set_uint8 ... here with the layer-1 builder, takes a second reference, and hands it over with
+   cbor_array_push(a, cbor_move(x)) three times: accepted, accepted, refused (full - the moved
+   reference is not given back) *)
+Definition ex3S_pre : list op3 :=
+  [O3Old (ONewDefArray 2); O3Old (OBuildInt false I8 7); O3Old (OIncref 1); O3Old (OIncref 1); O3Old (OIncref 1)]%nat.
+Definition ex3S_ops : list op3 := [O3PushMove 0 1; O3BuildBool true; O3PushMove 0 1; O3PushMove 0 1; O3Old (OGet 0 1)]%nat.
+
+Ltac lg3_next := intros ?s ?o ?w E; vm_compute in E; injection E as <- <- <-.
+Ltac lg3_ctor := split; [split; [exact I|reflexivity]|lg3_next].
+Ltac lg3_incref :=
+  split;
+  [ split; [let p := fresh "p" in let Hp := fresh "Hp" in intros p Hp; lg_h Hp; split; [vm_compute; reflexivity|lg_room]|reflexivity]
+  | lg3_next ].
+Ltac lg3_push_move :=
+  split;
+  [ let p := fresh "p" in let q := fresh "q" in let Hp := fresh "Hp" in let Hq := fresh "Hq" in
+    intros p q Hp Hq; lg_h Hp; lg_h Hq;
+    split; [vm_compute; reflexivity|]; split; [vm_compute; reflexivity|]; split; [vm_compute; reflexivity|];
+    split; [discriminate|]; split; [vm_compute; repeat eexists|];
+    do 2 eexists; split; [vm_compute; reflexivity|]; split; vm_compute; reflexivity
+  | lg3_next ].
+
+Example ex3S_legal : legal_history3 never 8 (ex3S_pre ++ ex3S_ops) s3_0 own0 world0.
+Proof.
+  unfold ex3S_pre, ex3S_ops. cbn [app].
+  lg3_ctor. lg3_ctor. lg3_incref. lg3_incref. lg3_incref.
+  lg3_push_move. split; [exact I|lg3_next]. lg3_push_move. lg3_push_move.
+  split.
+  { split; [|reflexivity]. intros p Hp. lg_h Hp. split; [vm_compute; reflexivity|].
+    do 5 eexists. split; [vm_compute; reflexivity|].
+    intros e He. vm_compute in He. injection He as <-. lg_room. }
+  lg3_next. exact I.
+Qed.
+
+Lemma legal_history3_app refuse L : forall pre ops s own w,
+  legal_history3 refuse L (pre ++ ops) s own w ->
+  forall s' outs w' acc, run_hist3 refuse L pre s acc w = Ret (s', outs) w' ->
+  legal_history3 refuse L pre s own w /\ legal_history3 refuse L ops s' (own_hist3 refuse L pre s own w) w'.
+Proof.
+  induction pre as [|o r IH]; intros ops s own w LH s' outs w' acc R.
+  - cbn [run_hist3] in R. apply ret_inv in R. destruct R as [R ->]. injection R as -> _.
+    split; [exact I|exact LH].
+  - cbn [app legal_history3] in LH. destruct LH as (Lo & LH).
+    cbn [run_hist3] in R. apply bind_inv in R. destruct R as ([s1 o1] & w1 & E & R). cbn [fst snd] in R.
+    destruct (IH ops s1 _ w1 (LH _ _ _ E) s' outs w' _ R) as (P1 & P2).
+    split.
+    + cbn [legal_history3]. split; [exact Lo|]. intros s2 o2 w2 E2. rewrite E in E2. injection E2 as <- <- <-.
+      exact P1.
+    + cbn [own_hist3]. rewrite E. exact P2.
+Qed.
+
+(* the theorem applies to it *)
+Example ex3S_sequence :
+  exists s outs w,
+    run_hist3 never 8 ex3S_pre s3_0 [] world0 = Ret (s, outs) w /\
+    seq_ok3 never 8 1 ex3S_ops s w (mkalist false 2 []).
+Proof.
+  do 3 eexists. split; [vm_compute; reflexivity|].
+  match goal with |- seq_ok3 _ _ _ _ ?s ?w _ =>
+    assert (R : exists outs, run_hist3 never 8 ex3S_pre s3_0 [] world0 = Ret (s, outs) w) by (eexists; vm_compute; reflexivity)
+  end.
+  destruct R as [outs R].
+  destruct (legal_history3_app never 8 ex3S_pre ex3S_ops s3_0 own0 world0 ex3S_legal _ _ _ [] R) as (L1 & L2).
+  destruct (C04_history3_gen never 8 ex3S_pre s3_0 own0 own0 world0 [] Inv_world0 caps_world0 L1)
+    as (s1 & outs1 & w1 & R1 & I1 & C1).
+  rewrite R in R1. injection R1 as <- <- <-.
+  eapply (C12_array_sequence3 never 8 0%nat 1); [exact I1|exact C1| | | | |exact L2].
+  - vm_compute. reflexivity.
+  - vm_compute. reflexivity.
+  - exists 1, (Some 2). split; [vm_compute; reflexivity|vm_compute; discriminate].
+  - unfold ex3S_ops. repeat (constructor; [cbn [arr_lang3 arr_lang]; auto|]). constructor.
+Qed.
+
+Example ex3S_outs :
+  match run_hist3 never 8 (ex3S_pre ++ ex3S_ops) s3_0 [] world0 with
+  | Ret (s', outs) w' =>
+      skipn 5 outs = [Out (OutBool true); Out (OutHandle true); Out (OutBool true); Out (OutBool false); Out (OutHandle true)] /\
+      heap w' 1 = Some (CItem 1 (NArr false (Some 2) 2 [3; 3])) /\ heap w' 3 = Some (CItem 4 (NInt false I8 7))
+  | Fault _ => False
+  end.
+Proof. vm_compute. repeat split. Qed.
+
+
 (* ------------------------------------------------------------------------------------------ *)
 Print Assumptions C12_array_sequence.
+Print Assumptions C12_array_sequence3.
+Print Assumptions ex3S_sequence.
 Print Assumptions C12_array_sequence_from_empty.
 Print Assumptions seq_ok_run.
 Print Assumptions C12_map_sequence.
